@@ -14,6 +14,14 @@ recording callback synchronously issues ONE further request from inside the call
 requests are monitored like any other (fire exactly once, agreement, no escaping exception); an
 exception raised by the follow-up call itself is reported (`exception-in-followup-request`).
 
+Policy callbacks that issue requests (hook suffix of a policy name, e.g. "all+mirror"): `mirror` -
+enableLocal/enableRemote, when they accept, synchronously ask for the other side of the same option;
+`reenable` - disableLocal/disableRemote synchronously ask for the option again.  At most 2 such requests
+per side, so a stubborn application stays finite.  Same oracle.
+Narrow key `telnet-request-from-disable-callback-precedes-acknowledgement`: the "can never be entered"
+assertion escapes dataReceived and, in the re-executed history, a `reenable` side had issued a request
+from its disable callback (the request is written before the WONT/DONT acknowledgement).
+
 Policies (each satisfies "accepts the options it itself requests"):
   all        accept every enable request;
   own        accept option o on perspective p iff this side has itself requested will(o)/do(o) before;
@@ -58,9 +66,11 @@ ASSUMPTIONS = ["trusted base: cloning (fresh Telnet + deep copy of its instance 
                "the wire is FIFO per direction"]
 SHARDS = {"quick": 4, "thorough": 16}
 FLOORS = {"quiescence_checks": 1000, "deferreds_fired_ok": 1000, "agreement_checks": 1000,
-          "messages_delivered": 1000, "results_True": 50, "results_OptionRefused": 50}
+          "messages_delivered": 1000, "results_True": 50, "results_OptionRefused": 50,
+          "requests_from_policy_callbacks": 50, "requests_from_policy_callbacks_explored": 3}
 READY = True
 
+KNOWN_DISABLE = "telnet-request-from-disable-callback-precedes-acknowledgement"
 POLICIES = ("all", "own", "solicited")
 REQS = ("will", "wont", "do", "dont")
 FLIP = {"will": "wont", "wont": "will", "do": "dont", "dont": "do"}
@@ -83,17 +93,30 @@ class Wire:
 class PolicyTelnet(telnet.Telnet):
     side = None
 
+    # The policy callbacks may themselves issue requests, synchronously (hook policies):
+    #   mirror   - when one side of an option gets enabled, ask for the other side too
+    #   reenable - when an option gets disabled, ask for it again at once
     def enableLocal(self, option):
-        return self.side.accept("us", option)
+        ok = self.side.accept("us", option)
+        if ok and self.side.hook == "mirror":
+            self.side.hook_request("do", option)
+        return ok
 
     def enableRemote(self, option):
-        return self.side.accept("him", option)
+        ok = self.side.accept("him", option)
+        if ok and self.side.hook == "mirror":
+            self.side.hook_request("will", option)
+        return ok
 
     def disableLocal(self, option):
         self.side.callbacks.append(("disableLocal", option))
+        if self.side.hook == "reenable":
+            self.side.hook_request("will", option)
 
     def disableRemote(self, option):
         self.side.callbacks.append(("disableRemote", option))
+        if self.side.hook == "reenable":
+            self.side.hook_request("do", option)
 
 
 class Side:
@@ -101,7 +124,8 @@ class Side:
 
     def __init__(self, name, policy):
         self.name = name
-        self.policy = policy
+        self.policy, _, self.hook = policy.partition("+")  # e.g. "all+mirror"
+        self.hook_left = 2  # requests the policy callbacks may still issue (keeps a stubborn application finite)
         self.t = PolicyTelnet()
         self.t.side = self
         self.wire = Wire()
@@ -128,7 +152,7 @@ class Side:
         self.results.setdefault(rid, []).append(name)
         if verb in ("will", "do") and result is True:
             self.fired_now.add(("us" if verb == "will" else "him", option))
-        if follow and name in ("True", "OptionRefused"):
+        if follow:  # after any outcome, Already* included (the follow-up itself carries no flag)
             # re-entrant application: a follow-up request issued synchronously from the callback /
             # errback of the request that just completed (monitored like any other request)
             try:
@@ -136,6 +160,18 @@ class Side:
             except Exception as e:  # noqa: BLE001 - would otherwise vanish inside the Deferred
                 self.followup_errors.append("%s: %s" % (type(e).__name__, str(e)[:150]))
         return None
+
+    def hook_request(self, verb, option):
+        if self.hook_left <= 0:
+            return
+        self.hook_left -= 1
+        self.hook_requests += 1
+        try:
+            self.request(verb, option)
+        except Exception as e:  # noqa: BLE001
+            self.followup_errors.append("%s: %s" % (type(e).__name__, str(e)[:150]))
+
+    hook_requests = 0
 
     def followup(self, verb, option, follow, outcome):
         if follow == "chain":  # same side of the same option: undo after success, retry after refusal
@@ -161,6 +197,7 @@ class Side:
         n = Side.__new__(Side)
         memo[id(self)] = n
         n.name, n.policy, n.nreq = self.name, self.policy, self.nreq
+        n.hook, n.hook_left, n.hook_requests = self.hook, self.hook_left, self.hook_requests
         n.requested, n.fired_now = set(self.requested), set(self.fired_now)
         n.pending = dict(self.pending)
         n.results = {k: list(v) for k, v in self.results.items()}
@@ -268,7 +305,7 @@ class World:
         opts = tuple((self.a.optstate(bytes([o])), self.b.optstate(bytes([o]))) for o in self.options)
         pol = tuple((tuple(sorted(s.requested)) if s.policy == "own" else ()) for s in self.sides())
         pend = tuple(tuple(sorted(map(repr, s.pending.values()))) for s in self.sides())
-        return (opts, tuple(self.a.wire.q), tuple(self.b.wire.q), pol, pend, self.dead, self.fleft)
+        return (opts, tuple(self.a.wire.q), tuple(self.b.wire.q), pol, pend, self.dead, self.fleft, self.a.hook_left, self.b.hook_left)
 
     def drain_and_check(self, ctx):
         """Mutates the world: deliver everything, then evaluate the quiescence oracle."""
@@ -337,6 +374,13 @@ def report(ctx, cfg, options, max_requests, hist, problems, confirm=True):
         if key in done:
             continue
         done.add(key)
+        if key == "exception-in-dataReceived-AssertionError" and "can never be entered" in str(detail) and any("reenable" in c for c in cfg):
+            wk = run_history(cfg, options, max_requests, hist)
+            if any(sd.hook == "reenable" and sd.hook_requests for sd in wk.sides()):
+                key = KNOWN_DISABLE
+                what = ("a request issued from inside disableLocal()/disableRemote() is written before the WONT/DONT that acknowledges the "
+                        "disable; the peer sees it while its own request is still negotiating and hits the 'can never be entered' assertion")
+                ctx.count("known_" + key)
         ctx.violation(key, what, {"policies": {"A": cfg[0], "B": cfg[1]}, "options": list(options), "max_requests": max_requests,
                                   "history": [list(a) for a in hist], "detail": detail})
 
@@ -396,13 +440,14 @@ def explore(ctx, cfg, options, max_requests, owns_first=None):
                 ctx.count("re_expanded_with_more_requests_left")
             tick += 1
             heapq.heappush(heap, (-w2.left, tick, w2, h2))
+    ctx.count("requests_from_policy_callbacks_explored", 1 if "+" in "".join(cfg) else 0)
     ctx.count("states_%s_R%s" % ("-".join(cfg), "+".join(map(str, max_requests)) if isinstance(max_requests, tuple) else max_requests), nstates)
     return nstates
 
 
 def random_run(ctx, i):
     rng = ctx.case_rng("rand", i)
-    cfg = (rng.choice(POLICIES), rng.choice(POLICIES))
+    cfg = tuple(rng.choice(POLICIES) + (rng.choice(("+mirror", "+mirror", "+reenable")) if rng.random() < 0.25 else "") for _ in "AB")
     options = (1, 3, 31)
     w = World(cfg, options, (10 ** 9, 10 ** 9))
     hist = []
@@ -439,6 +484,7 @@ def random_run(ctx, i):
     ctx.evaluated()
     ctx.distinct(("rand", cfg, tuple(hist)))
     ctx.count("random_runs")
+    ctx.count("requests_from_policy_callbacks", w.a.hook_requests + w.b.hook_requests)
     if w.problems:
         report(ctx, cfg, options, (10 ** 9, 10 ** 9), hist, w.problems, confirm=False)
     if i < 2:
@@ -451,7 +497,15 @@ def run(ctx):
     budgets = [(4, 0), (3, 1)] if ctx.quick else [(6, 0), (4, 1)]
     # the world is symmetric in A/B: 6 unordered policy pairs
     cfgs = [(pa, pb) for i, pa in enumerate(POLICIES) for pb in POLICIES[i:]]
-    jobs = [(cfg, b) for b in budgets for cfg in cfgs]
+    jobs = [(cfg, b) for b in budgets for cfg in cfgs
+            if not (ctx.quick and b[1] and cfg in (("all", "own"), ("own", "solicited")))]  # quick: 4 of the 6 pairs re-entrant
+    # policy callbacks that issue requests themselves (mirror / reenable), plain alphabet, 3 (thorough 4) requests
+    hooked = [("all+mirror", "all"), ("own+mirror", "solicited"), ("all+mirror", "all+mirror"), ("all+reenable", "all"),
+              ("own+reenable", "all+mirror"), ("solicited+mirror", "own+reenable")]
+    jobs += [(cfg, (3, 0) if ctx.quick else (4, 0)) for cfg in hooked]
+    # heavier jobs first, so that dealing them out round-robin balances the shards
+    weight = {"own": 3, "all": 2, "solicited": 1}
+    jobs.sort(key=lambda j: -(sum(weight[p.partition("+")[0]] for p in j[0]) * (j[1][0] + 2 * j[1][1])))
     for k, (cfg, budget) in enumerate(jobs):
         if not ctx.owns(k):
             continue
